@@ -76,7 +76,7 @@ func doReplay(file string) int {
 func run(tier string) int {
 	quick := tier == "quick"
 	col := ev.NewCollector("C06", tier, "fault_enumeration")
-	dl := ev.NewDeadline(ev.EnvDur("VERIF_BUDGET", map[bool]time.Duration{true: 420 * time.Second, false: 40 * time.Minute}[quick]))
+	dl := ev.NewDeadline(ev.EnvDur("VERIF_BUDGET", map[bool]time.Duration{true: 600 * time.Second, false: 40 * time.Minute}[quick]))
 	engines := []string{"pebble"}
 	scripts := []string{"mixed", "counter"}
 	if !quick {
